@@ -173,13 +173,15 @@ def varStr : Pool.Var → String
   | .idx i => "i:" ++ toString i
 
 /-- `look`: the look-ups of the compiled expression, in evaluation order; cross-checked on every case with the
-    variable occurrences of the ghost parse tree (`lookups_are_formula_variables` proves them equal). -/
+    variable occurrences of the ghost parse tree (`lookups_are_formula_variables` proves them equal) and with the
+    variable tokens of the text (`textVars`, `lookups_are_text_tokens`). -/
 def lookAns (fb : Bytes) : String :=
   match compile IEEE.arithT fb with
   | .error e => errStr e
   | .ok (t, e) =>
     let vs := e.vars
     if t.vars (classify IEEE.arithT) != vs then "vars-tree-vs-expr-disagree"
+    else if textVars tok (classify IEEE.arithT) fb != vs then "vars-text-vs-expr-disagree"
     else if vs.isEmpty then "ok -" else "ok " ++ ",".intercalate (vs.map varStr)
 
 /-- The expression registry with `{! …}` bound to the IEEE instance (first entry wins). -/
